@@ -411,6 +411,10 @@ def check_sites(prog, chk, pid):
                 chk.ok("A17.site-algebra", f"{name}:{cname}", b.where(), f"{short} [{cname}]: {ent.get('watch', 'result')} <- {A.canon(got[cname])} equals the reference" + (f" with {ren}" if ren else ""))
         elif "ret" in ent and not all(_same_shape(got[c], A.ref(want[c])) for c in ent["cases"] if _reads(want[c])):
             chk.undecided("A17.site-algebra", name, b.where(), f"{short}: the result is carried in a differently shaped value than the reference describes (other field names, a struct for a tuple ...): e.g. {A.canon(got[sorted(ent['cases'])[0]])[:200]}; it cannot be compared part by part")
+        elif partial and len(partial) < len(ent["cases"]) and match_modulo({c: got[c] for c in got if c not in partial}, {c: want[c] for c in want if c not in partial}, ent.get("roles", []), fixed_prefixes=tuple(ent.get("fixed", ["box.", "$"])))[0] is None and not match_modulo.untraced:
+            # the cases the evaluator did follow to a definite value disagree with the reference among themselves
+            _r2, why2 = match_modulo({c: got[c] for c in got if c not in partial}, {c: want[c] for c in want if c not in partial}, ent.get("roles", []), fixed_prefixes=tuple(ent.get("fixed", ["box.", "$"])))
+            chk.bad("A17.site-algebra", f"{name}", b.where(), f"{short}: the values {'passed to ' + ent['watch'] + '()' if ent.get('watch') else 'returned'} disagree with the reference algebra ({ent.get('why', '')}) in the cases the evaluator follows completely ({len(ent['cases']) - len(partial)} of {len(ent['cases'])}): {why2}")
         elif partial:
             # the evaluator could not follow the code to a definite value in some case (an idiom it does not know): a
             # disagreement that rests on an unknown is not evidence of a wrong value
